@@ -465,3 +465,277 @@ fn exec_count(plan: &Plan) -> Outcome {
     out.oracle_evals = evals + 1;
     out
 }
+
+// ------------------------------------------------------------------ C19, process level
+
+/// The simulated UCI peer: `sim stockfish-stub`, started by the engine as `stockfish`.
+/// It is the reference model: it replays every announced history, checks that its own
+/// replies came back unchanged, and answers `go` with seeded legal moves (biased to en
+/// passant, castling and the promotion variants), with `info` chatter and sometimes a
+/// `ponder` suffix. Its findings go to the file named by VERIF_STUB_LOG.
+pub fn stockfish_stub() {
+    let seed: u64 = std::env::var("VERIF_STUB_SEED").ok().and_then(|s| s.parse().ok()).unwrap_or(1);
+    let max_games: u64 = std::env::var("VERIF_STUB_GAMES").ok().and_then(|s| s.parse().ok()).unwrap_or(2);
+    let log = std::env::var("VERIF_STUB_LOG").unwrap_or_else(|_| "/dev/null".into());
+    let mut rng = Rng::new(mix(seed, 0, 0x5355));
+    let mut expected: Vec<String> = Vec::new();
+    let mut announced: Pos = Pos::startpos();
+    let mut announced_tokens: Vec<String> = Vec::new();
+    let mut games: u64 = 1;
+    let mut plies: u64 = 0;
+    let mut violations: Vec<(String, String)> = Vec::new();
+    let mut counts: std::collections::BTreeMap<&'static str, u64> = Default::default();
+    let write_log = |games: u64, plies: u64, violations: &Vec<(String, String)>, counts: &std::collections::BTreeMap<&'static str, u64>, done: bool| {
+        let v: Vec<String> = violations.iter().map(|(c, d)| format!("[{:?}, {:?}]", c, d)).collect();
+        let c: Vec<String> = counts.iter().map(|(k, n)| format!("{:?}: {}", k, n)).collect();
+        let _ = std::fs::write(&log, format!("{{\"games\": {}, \"plies\": {}, \"done\": {}, \"violations\": [{}], \"counts\": {{{}}}}}", games, plies, done, v.join(", "), c.join(", ")));
+    };
+    let stdin = std::io::stdin();
+    let mut line = String::new();
+    loop {
+        line.clear();
+        match stdin.lock().read_line(&mut line) {
+            Ok(0) | Err(_) => break,
+            Ok(_) => {}
+        }
+        let cmd = line.trim();
+        if cmd == "quit" {
+            break;
+        }
+        if let Some(rest) = cmd.strip_prefix("position startpos moves") {
+            let tokens: Vec<String> = rest.split_whitespace().map(|s| s.to_string()).collect();
+            if tokens.len() < expected.len() {
+                // a new game begins
+                games += 1;
+                expected.clear();
+                if games > max_games {
+                    write_log(games - 1, plies, &violations, &counts, true);
+                    return;
+                }
+            }
+            if tokens.len() < expected.len() || tokens[..expected.len()] != expected[..] {
+                violations.push((
+                    "C19/process/announced-history-differs-from-what-was-played".into(),
+                    format!("peer expected a history starting with [{}], engine announced [{}]", expected.join(" "), tokens.join(" ")),
+                ));
+            } else if tokens.len() > expected.len() + 1 {
+                violations.push((
+                    "C19/process/announced-history-skips-a-move".into(),
+                    format!("peer knows [{}], engine announced [{}]", expected.join(" "), tokens.join(" ")),
+                ));
+            }
+            let mut pos = Pos::startpos();
+            for (n, t) in tokens.iter().enumerate() {
+                match pos.legal_moves().iter().find(|m| m.uci() == *t) {
+                    Some(m) => pos = pos.make(m),
+                    None => {
+                        violations.push((
+                            "C19/process/announced-move-is-not-standard-or-not-legal".into(),
+                            format!("move {} '{}' of the announced history [{}] is not the coordinate text of a legal move in {}", n + 1, t, tokens.join(" "), pos.to_fen()),
+                        ));
+                        break;
+                    }
+                }
+            }
+            announced = pos;
+            announced_tokens = tokens;
+            write_log(games, plies, &violations, &counts, false);
+            continue;
+        }
+        if cmd.starts_with("go") {
+            let legal = announced.legal_moves();
+            if legal.is_empty() {
+                println!("bestmove (none)");
+                continue;
+            }
+            // biased choice: special moves first
+            let special: Vec<&Mv> = legal.iter().filter(|m| m.ep || m.castle.is_some() || m.promo.is_some()).collect();
+            let m: Mv = if !special.is_empty() && rng.chance(3, 4) {
+                **rng.pick(&special)
+            } else {
+                let k = choose_move(&mut rng, &announced, &legal, Policy::Spicy, None);
+                legal[k]
+            };
+            if m.ep {
+                *counts.entry("peer-replied-en-passant").or_insert(0) += 1;
+            }
+            if m.castle.is_some() {
+                *counts.entry("peer-replied-castling").or_insert(0) += 1;
+            }
+            if m.promo.is_some() {
+                *counts.entry("peer-replied-promotion").or_insert(0) += 1;
+            }
+            if m.promo.is_some() && m.promo != Some(P::Queen) {
+                *counts.entry("peer-replied-underpromotion").or_insert(0) += 1;
+            }
+            println!("info depth 1 seldepth 1 multipv 1 score cp 17 nodes 20 nps 20000 time 1 pv {}", m.uci());
+            println!("info string bestmove is below");
+            if rng.chance(1, 3) {
+                let next = announced.make(&m);
+                match next.legal_moves().first() {
+                    Some(p) => println!("bestmove {} ponder {}", m.uci(), p.uci()),
+                    None => println!("bestmove {}", m.uci()),
+                }
+                *counts.entry("fault/ponder-suffix").or_insert(0) += 1;
+            } else {
+                println!("bestmove {}", m.uci());
+            }
+            *counts.entry("fault/info-chatter-lines").or_insert(0) += 2;
+            expected = announced_tokens.clone();
+            expected.push(m.uci());
+            plies += 1;
+            write_log(games, plies, &violations, &counts, false);
+            continue;
+        }
+        // setoption, uci, isready, ...: nothing to do
+        if cmd == "isready" {
+            println!("readyok");
+        }
+    }
+    write_log(games, plies, &violations, &counts, true);
+}
+
+pub fn gen_plan_stockfish(seed: u64, index: u64, tier: Tier) -> Plan {
+    let mut knobs = std::collections::BTreeMap::new();
+    knobs.insert("games".into(), if tier == Tier::Thorough { 6 } else { 2 });
+    knobs.insert("rt_seed".into(), (mix(seed, index, 0x5254) >> 2) as i64);
+    knobs.insert("stub_seed".into(), (mix(seed, index, 0x5342) >> 2) as i64);
+    Plan {
+        property: "C19".into(),
+        scenario: "cli-stockfish-bridge".into(),
+        seed,
+        index,
+        start_fen: Pos::startpos().to_fen(),
+        lru: 0,
+        register: false,
+        knobs,
+        ops: Vec::new(),
+        schedule: String::new(),
+    }
+}
+
+pub fn exec_stockfish(plan: &Plan) -> Outcome {
+    let mut out = Outcome::default();
+    let mut stats = Stats::default();
+    let scratch = std::env::var("VERIF_SCRATCH").unwrap_or_else(|_| "/verif/.build/tmp".into());
+    let dir = std::path::PathBuf::from(scratch).join(format!("sf-{}-{}", std::process::id(), plan.index));
+    let _ = std::fs::remove_dir_all(&dir);
+    if std::fs::create_dir_all(&dir).is_err() {
+        out.desync = Some("cannot create scratch dir".into());
+        return out;
+    }
+    let me = std::env::current_exe().map(|p| p.display().to_string()).unwrap_or_default();
+    let wrapper = dir.join("stockfish");
+    let script = format!("#!/bin/sh\nexec {} stockfish-stub\n", me);
+    if std::fs::write(&wrapper, script).is_err() {
+        out.desync = Some("cannot write stub wrapper".into());
+        return out;
+    }
+    #[cfg(unix)]
+    {
+        use std::os::unix::fs::PermissionsExt;
+        let _ = std::fs::set_permissions(&wrapper, std::fs::Permissions::from_mode(0o755));
+    }
+    let log = dir.join("verdict.json");
+    let path = format!("{}:{}", dir.display(), std::env::var("PATH").unwrap_or_default());
+    let child = Command::new(chess_bin())
+        .args(["determine-stockfish-elo", "--depth", "1"])
+        .env("PATH", path)
+        .env("CHESS_VERIF_RT_SEED", plan.knob("rt_seed", 1).to_string())
+        .env("CHESS_VERIF_LRU_CAPACITY", "4096")
+        .env("VERIF_STUB_SEED", plan.knob("stub_seed", 1).to_string())
+        .env("VERIF_STUB_GAMES", plan.knob("games", 2).to_string())
+        .env("VERIF_STUB_LOG", log.display().to_string())
+        .env_remove("RUST_LOG")
+        .stdin(Stdio::null())
+        .stdout(Stdio::null())
+        .stderr(Stdio::piped())
+        .spawn();
+    let mut child = match child {
+        Ok(c) => c,
+        Err(e) => {
+            out.desync = Some(format!("cannot start the engine: {}", e));
+            return out;
+        }
+    };
+    // watchdog: the run normally ends when the stub leaves (broken pipe on the engine side)
+    let started = std::time::Instant::now();
+    let mut timed_out = false;
+    loop {
+        match child.try_wait() {
+            Ok(Some(_)) => break,
+            Ok(None) => {
+                // the peer has left: on end-of-file the engine's read loop spins forever (outside the
+                // listed properties), so the harness ends the run itself
+                let finished = std::fs::read_to_string(&log).map(|t| t.contains("\"done\": true")).unwrap_or(false);
+                if finished {
+                    std::thread::sleep(Duration::from_millis(50));
+                    let _ = child.kill();
+                    let _ = child.wait();
+                    break;
+                }
+                if started.elapsed() > Duration::from_secs(240) {
+                    timed_out = true;
+                    let _ = child.kill();
+                    let _ = child.wait();
+                    break;
+                }
+                std::thread::sleep(Duration::from_millis(20));
+            }
+            Err(_) => break,
+        }
+    }
+    let mut stderr = String::new();
+    if let Some(mut e) = child.stderr.take() {
+        use std::io::Read;
+        let _ = e.read_to_string(&mut stderr);
+    }
+    let verdict = std::fs::read_to_string(&log).unwrap_or_default();
+    let _ = std::fs::remove_dir_all(&dir);
+    let parsed: Result<serde_json::Value, _> = serde_json::from_str(&verdict);
+    let v = match parsed {
+        Ok(v) => v,
+        Err(_) => {
+            out.desync = Some(format!("no verdict from the stub (timed out: {}; engine stderr: {})", timed_out, stderr.chars().take(300).collect::<String>()));
+            return out;
+        }
+    };
+    stats.add("process/games", v["games"].as_u64().unwrap_or(0));
+    stats.add("process/peer-replies", v["plies"].as_u64().unwrap_or(0));
+    stats.add("steps", v["plies"].as_u64().unwrap_or(0));
+    if let Some(c) = v["counts"].as_object() {
+        for (k, n) in c.iter() {
+            let key = if k.starts_with("fault/") { k.clone() } else { format!("probe/{}", k) };
+            stats.add(&key, n.as_u64().unwrap_or(0));
+        }
+    }
+    out.oracle_evals = 1 + 2 * v["plies"].as_u64().unwrap_or(0);
+    if let Some(first) = v["violations"].as_array().and_then(|a| a.first()) {
+        out.violation = Some(Violation {
+            class: first[0].as_str().unwrap_or("C19/process/unknown").to_string(),
+            detail: first[1].as_str().unwrap_or("").to_string(),
+            at_op: 0,
+        });
+    } else {
+        // an engine panic other than the broken pipe that normally ends the run
+        let panic_line = stderr.lines().find(|l| l.contains("panicked at")).map(|l| l.to_string());
+        let benign = stderr.contains("Broken pipe") || stderr.contains("BrokenPipe");
+        if let Some(_l) = panic_line {
+            if !benign {
+                let msg: String = stderr.lines().skip_while(|l| !l.contains("panicked at")).take(2).collect::<Vec<_>>().join(" ");
+                out.violation = Some(Violation {
+                    class: format!("C19/process/engine-panicked-on-peer-reply/{}", crate::normalise_panic_pub(msg.split(':').last().unwrap_or(""))),
+                    detail: format!("engine stderr: {}", msg.chars().take(400).collect::<String>()),
+                    at_op: 0,
+                });
+            }
+        } else if timed_out && !v["done"].as_bool().unwrap_or(false) {
+            out.desync = Some("engine/stub did not finish within the watchdog time".into());
+        }
+    }
+    let mut d = Digest::new();
+    d.eat(v["plies"].as_u64().unwrap_or(0));
+    out.digest = d.0;
+    out.stats = stats;
+    out
+}
